@@ -32,6 +32,9 @@ LEVEL_TEXT = ("Theorems over all class tables (any number of classes, any bodies
               "_dataclass_parameters, InitVar members deleted after use, member-order walk, per-event set of seen paths) leaves on every class, after ANY history of "
               "on_package_loaded events through one extension object, exactly the stateless result - and does not with the memo dropped or the seen set kept (computed "
               "counterexamples); a hand-written __init__ is kept by both; an undecorated class gets none; the 'dataclass' label equals dataclasses.is_dataclass for every class. "
+              "What the extension can see when the event fires is modelled too (module scopes after the visit and after expand_wildcards): for all layouts, expand_wildcards never changes a "
+              "binding made on a later line than every star import, or hidden by the __all__ of the star-imported modules, so @dataclass stays recognised there (the complement is finding F10, computed); "
+              "fired before expand_wildcards the event would not see star-imported bases (computed). "
               "The models are tied to the code by a translator (merge shape, keyword-only rule, default rule, reorder groups, MRO walk direction, _post_load order, "
               "built-in extension, on_package_loaded, class branch of _apply_recursively) and by differential runs on generated hierarchies loaded from files "
               "(single loads, version histories through one extensions object, package chains through one loader); the CPython model by real execution of the same source.")
@@ -43,8 +46,9 @@ LEVEL_NOTE = ("Trusted: Coq kernel, extraction, the renderer structure->source t
               "annotated-name-then-property form); undecorated classes contain no field() calls; field(default=..., default_factory=...) together "
               "is not generated. In the state machine the memo is warmed for the classes of the reversed MRO and the class itself; the real Accumulated code also memoises classes "
               "reachable outside that list when the MRO lists are not closed (never for real MROs), with the same values. Expression resolution of `dataclass`/`field`/`KW_ONLY`/`InitVar` "
-              "spellings, module layout and wildcard expansion are exercised by the generator (layout, history and cross-package streams), not modelled in Coq: the translator only "
-              "pins the order of _post_load; finding C18-F10 (star import re-binding `dataclass`) lives there and is classified by a layout predicate in the harness, and accepted only when the "
+              "spellings is abstracted: the layout model (Model/C18_layout.v) has one name for the helper imports, no expand_exports, no C3 - it answers `decorator recognised / base resolved` per class and is compared "
+              "with a recorder extension that observes exactly that at on_package_loaded; the table-level model takes the MRO over all bases. Finding C18-F10 (star import re-binding `dataclass`) is classified by a layout "
+              "predicate in the harness that is compared with the layout model on every case, and accepted only when the table-level "
               "model applied to the table with those decorators dropped reproduces everything Griffe presents. Loading a package before the package its bases come from is not generated "
               "(the bases are unresolvable then; not a defect). The theorems for the FlatFilterLast / Accumulated shapes describe the two fix commits prepared in build/fix-C18; "
               "until they land the tree is FlatFilterFirst and F3, F6 stay known findings.")
@@ -1252,7 +1256,7 @@ def explore(ctx):
     replay_witnesses(ctx)
     fixed = REPAIRED_BY_MODE[current_mode()]
     check_tables(ctx, list(REPAIRED.values()) + [WITNESSES[f][0] for f in sorted(fixed)], "corpus: witnesses of repaired defects (must pass)")
-    check_histories(ctx, ctx.budget(120, 500))
+    check_histories(ctx, ctx.budget(100, 500))
     sd = systematic_decorators()
     sf = systematic_forms()
     if ctx.quick:
@@ -1262,10 +1266,10 @@ def explore(ctx):
         ctx.exhaustive = True
     check_tables(ctx, sd, "systematic decorator pairs")
     check_tables(ctx, sf, "systematic field forms")
-    check_tables(ctx, [rand_diamond(ctx.rng) for _ in range(ctx.budget(300, 1500))], "random diamonds")
-    check_tables(ctx, [rand_table(ctx.rng, maxn=4, quiet=True, initvar=0.3) for _ in range(ctx.budget(250, 1200))],
+    check_tables(ctx, [rand_diamond(ctx.rng) for _ in range(ctx.budget(250, 1500))], "random diamonds")
+    check_tables(ctx, [rand_table(ctx.rng, maxn=4, quiet=True, initvar=0.3) for _ in range(ctx.budget(200, 1200))],
                  "cross-package: one loader, packages loaded in dependency order", layout="xpkg")
-    n = ctx.budget(1800, 8000)
+    n = ctx.budget(1500, 8000)
     maxn = 4 if ctx.quick else 5
     batch = []
     for k in range(n):
